@@ -187,7 +187,7 @@ func runC12Flow(rep *TReport, raw json.RawMessage) {
 	}
 	// "tokens never carry ... an audience that was not granted": the same request under the JWT access-token strategy, with a
 	// resource owner who grants NONE of the requested audiences: the token's aud claim stays empty
-	if ok && !scopeDim && (r.Flow == "authorize_code" || r.Flow == "implicit" || r.Flow == "hybrid") {
+	if ok && !scopeDim && (r.Flow == "authorize_code" || r.Flow == "implicit" || r.Flow == "hybrid" || r.Flow == "device") {
 		jc := DefaultCfg()
 		jc.RScopes, jc.AT = []string{}, "jwt"
 		jw := NewWorld(jc)
@@ -196,9 +196,17 @@ func runC12Flow(rep *TReport, raw json.RawMessage) {
 		jcl := jw.Mem.Clients[cname].(*fosite.DefaultClient)
 		jcl.Scopes, jcl.Audience = []string{"s"}, []string{reg}
 		rtype := map[string]string{"authorize_code": "code", "implicit": "token", "hybrid": "code_token"}[r.Flow]
-		jo := jw.Exec(1, Op{Op: "authorize", Client: cname, RType: rtype, Scopes: scopes, Grant: scopes, Aud: aud, GAud: []string{"-nothing-"}, Redir: "sent", Pkce: "none"})
-		if jo.Res == "ok" && jo.New["code"] > 0 {
-			jw.Exec(1, Op{Op: "redeem", Client: cname, Auth: "ok", Code: jo.New["code"], Redir: "same", Ver: "none"})
+		if r.Flow == "device" { // the user grants none of the audiences the device asked for, then the device polls
+			if jo := jw.Exec(1, Op{Op: "devstart", Client: cname, Auth: "ok", Scopes: scopes, Grant: scopes, Aud: aud, GAud: []string{"-nothing-"}}); jo.Res == "ok" {
+				jw.Exec(1, Op{Op: "devdecide", Dev: jo.New["dev"], Dec: "accept"})
+				po := jw.Exec(1, Op{Op: "devpoll", Client: cname, Auth: "ok", Dev: jo.New["dev"]})
+				rep.cmp(raw, "device_poll_after_accept", "ok", po.Res, false)
+			}
+		} else {
+			jo := jw.Exec(1, Op{Op: "authorize", Client: cname, RType: rtype, Scopes: scopes, Grant: scopes, Aud: aud, GAud: []string{"-nothing-"}, Redir: "sent", Pkce: "none"})
+			if jo.Res == "ok" && jo.New["code"] > 0 {
+				jw.Exec(1, Op{Op: "redeem", Client: cname, Auth: "ok", Code: jo.New["code"], Redir: "same", Ver: "none"})
+			}
 		}
 		jat, _ := jw.Probe()
 		for _, ts := range jat {
